@@ -19,6 +19,8 @@ IdleDisjointC(h, idl)    == /\ \A t \in DOMAIN h : h[t] = NoArena \/ h[t] \notin
                             /\ \A i, j \in DOMAIN idl : i # j => idl[i] # idl[j]
 \* arenas (created or being created) never outnumber the peak number of simultaneous owners
 ReuseC(ncreated, pk)     == ncreated <= pk
+\* at the instant an arena is created no arena is idle (given: the number of idle arenas, or a lower bound of it)
+NoIdleAtCreationC(nidle) == nidle <= 0
 \* every block allocated through any guard since the arena's last reset is still there
 DataIntactC(wr, blk, ch) == \A w \in wr : w[1] \in DOMAIN blk /\ w[2] \in blk[w[1]] /\ ch[w[1]] >= 1
 
